@@ -213,13 +213,13 @@ def check_C14(ctx):
                 "conjuncts (section presence, processed-by once per round trip, callback count). A case is one input under all vectors, or one history.")
     q = ctx.quick()
     n = 150 if q else 5000
-    inputs = "fixtures,gen:%d,gen:%d:stable" % (n, n // 3)
+    inputs = "fixtures,dwarfed:%d,gen:%d,gen:%d:stable" % (n // 5, n, n // 3)
     trace = os.path.join(ctx.work, "config.ndjson")
     wv(["trace-config", "inputs=" + inputs, "seed=%d" % ctx.seed, "out=" + trace])
     r, cases = judge_trace(ctx, "Trace_Config", trace, slim=lambda c: {"id": c["id"], "source": c["source"]})
     ctx.notes["switch_vectors_per_input"] = max(len(c["runs"]) for c in cases)
     ctx.sample({"id": cases[0]["id"], "runs": [{"flags": x["flags"], "outcome": x["outcome"], "sections": [s["name"] or s["id"] for s in x["sections"]]} for x in cases[0]["runs"][:3]]})
-    lifecycle(ctx, "C14", "fixtures,gen:%d" % n, 4 if q else 16)
+    lifecycle(ctx, "C14", "fixtures,dwarfed:%d,gen:%d" % (n // 5, n), 4 if q else 16)
     ctx.exhaustive = True
     ctx.notes["exhaustive_over"] = "the 2^6 switch vectors (per input); inputs are samples"
 
@@ -409,7 +409,7 @@ def check_C02(ctx):
 
 
 BUILDER_CFG = "SPECIFICATION Spec\nCONSTANTS\n  MaxOps = %d\n%sINVARIANTS\n  %s\nCHECK_DEADLOCK FALSE\n"
-BUILDER_ALL = '  UnitKinds = {"set32", "set64", "getp"}\n  MaxPos = 3\n'
+BUILDER_ALL = '  UnitKinds = {"set32", "set64", "getp", "getq"}\n  MaxPos = 3\n'
 BUILDER_STRUCT = '  UnitKinds = {}\n  MaxPos = 1\n'
 
 
